@@ -82,7 +82,9 @@ T_C12_ExactIfFree == [][(e'.k = "offer" /\ e'.it <= Len(B.it) /\ CsNow = 0 /\ B'
                            e'.t - It(e'.it).enter = L]_vars
 
 (* C13, non-accumulating: nothing is admitted while stalled, nothing advances while stalled *)
-T_C13_NoAdmit == [][(~Acc /\ e'.k = "grant" /\ B.stall >= 0) => e'.t <= B.stall]_vars
+\* (judged in event order: a reservation granted in the very kernel step in which the head arrives is logged before
+\*  the offer and is not a grant "while the head waits")
+T_C13_NoAdmit == [][(~Acc /\ e'.k = "grant") => B.stall < 0]_vars
 T_C13_Frozen  == [][(~Acc /\ e'.k = "offer" /\ e'.it <= Len(B.it)) =>
                        LET x == It(e'.it)
                            st == (B.cs + (IF B.stall >= 0 THEN e'.t - B.stall ELSE 0)) - x.cs
